@@ -35,6 +35,7 @@ func round6(c *Ctx) {
 			r8ObjectsKeyedByAny(c)
 			r9ListsOfBytesAndTaggedFields(c)
 			r9EmptyObjectsAcrossCarriers(c)
+			r10OneQueryAfterAnother(c)
 		}
 	case "C05":
 		r6NumbersKeptAsText(c)
@@ -50,6 +51,7 @@ func round6(c *Ctx) {
 		r8NeedlesEndingInAQuote(c)
 	case "C17":
 		r6KeysThatFoldTogetherAcrossElements(c)
+		r10ElementsThatAreAllZero(c)
 	case "C19":
 		r6NilThenSetStructPointers(c)
 		r6AllZeroStructs(c)
@@ -670,6 +672,93 @@ func r9ListsThatWereNeverAllocated(c *Ctx) {
 		for _, q := range []string{"$.ID.AnyOf($." + l + ")", "$.ID.AnyOf($." + l + ",12)", "$.ID.AnyOf(12,$." + l + ")", "$.Five.Less($." + l + ",6)", "$.Name.AnyOf($." + l + ",\"n\")", "$.ID.NotEqual($." + l + ",12)",
 			"$.Five.Sum($." + l + ")", "$.ID.AnyOf($." + l + ",$.Names,12)"} {
 			c.sameAcross(q, names, docs, "round9/lists-that-were-never-allocated")
+		}
+	}
+}
+
+// lists of objects some of which hold nothing but zero values (0, "", false): the key stepped across the list yields a value from
+// EVERY element that has the key - also from those - so counts, positions and aggregates agree with Select and across carriers
+func r10ElementsThatAreAllZero(c *Ctx) {
+	vals := []float64{3, 0, 5, 0, 4}
+	elStruct := func(v float64) *TV {
+		return tvStruct([][3]any{{"K", 1, tvInt("int", fmt.Sprint(int(v)))}, {"S", 1, tvStr("")}, {"B", 1, tvBool(false)}})
+	}
+	elMap := func(v float64) *TV {
+		return tvMap("str", [][2]any{kv("K", tvInt("int", fmt.Sprint(int(v)))), kv("S", tvStr("")), kv("B", tvBool(false))})
+	}
+	list := func(ei int, mk func(float64) *TV, ptr bool) *TV {
+		var xs []*TV
+		for _, v := range vals {
+			x := mk(v)
+			if ptr {
+				x = tvPtr(x)
+			}
+			xs = append(xs, x)
+		}
+		return tvMap("str", [][2]any{kv("xs", tvSlice(ei, xs...)), kv("direct", tvSlice(1, tvF64(3), tvF64(0), tvF64(5), tvF64(0), tvF64(4)))})
+	}
+	names := []string{"maps-in-any", "structs", "pointers-to-structs", "structs-in-any", "pointers-in-any"}
+	docs := []*TV{list(1, elMap, false), list(0, elStruct, false), list(0, elStruct, true), list(1, elStruct, false), list(1, elStruct, true)}
+	for _, agg := range []string{"Count()", "Minimum()", "Maximum()", "Average()", "Sum()", "First()", "Last()", "Index(1)", "Index(3)", "Any()", "AnyOf(0)"} {
+		c.sameAcross("$.xs.K."+agg, names, docs, "round10/elements-that-are-all-zero")
+		c.sameAcross("$.xs.Select(\"$.K\")."+agg, names, docs, "round10/elements-that-are-all-zero")
+		c.sameAcross("$.direct."+agg, names, docs, "round10/elements-that-are-all-zero")
+	}
+	for _, q := range []string{"$.xs.K", "$.xs.S.Count()", "$.xs.B.Count()", "$.xs[@.K.Equal(0)].Count()", "$.xs[@.S.IsEmpty()].K", "$.xs.Count()", "$.xs.Index(1).K", "$.xs.Last().S"} {
+		c.sameAcross(q, names, docs, "round10/elements-that-are-all-zero")
+	}
+}
+
+// one query after another on the SAME in-memory document, in every carrier: what the second query answers does not depend on
+// the first having been asked, and it is the same in every carrier (the answers of a carrier that the first query rewrote -
+// numbers turned into decimals inside the caller's []any - differ from those of the carriers it copied)
+func r10OneQueryAfterAnother(c *Ctx) {
+	num := func(v float64) *TV { return tvF64(v) }
+	asAny := tvMap("str", [][2]any{kv("order", tvMap("str", [][2]any{
+		kv("weights", tvSlice(1, num(3), num(4))), kv("prices", tvSlice(1, num(1.5), num(2.25))),
+		kv("rows", tvSlice(1, tvSlice(1, num(1), num(2)), tvSlice(1, num(3), num(4)))), kv("name", tvStr("n"))}))})
+	typed := tvMap("str", [][2]any{kv("order", tvMap("str", [][2]any{
+		kv("weights", tvSlice(0, num(3), num(4))), kv("prices", tvSlice(0, num(1.5), num(2.25))),
+		kv("rows", tvSlice(0, tvSlice(0, num(1), num(2)), tvSlice(0, num(3), num(4)))), kv("name", tvStr("n"))}))})
+	strct := tvStruct([][3]any{{"Order", 1, tvStruct([][3]any{{"Weights", 1, tvSlice(0, num(3), num(4))}, {"Prices", 1, tvSlice(0, num(1.5), num(2.25))},
+		{"Rows", 1, tvSlice(0, tvSlice(0, num(1), num(2)), tvSlice(0, num(3), num(4)))}, {"Name", 1, tvStr("n")}})}})
+	names := []string{"json-decoded", "typed-lists", "struct"}
+	docs := []*TV{asAny, typed, strct}
+	firsts := []string{"$.order.weights.Sum()", "$.order.rows.First()", "$.order.rows[@.Sum().Greater(3)]", "$.order.weights.AnyOf(3)", "$.order.name.AnyOf($.order.weights)",
+		"$.order.prices.Average()", "$.order.rows.Last().Maximum()", "$.order.weights[@.Greater(3)]", "$.order.weights.Count()", "$.order.rows.Select(\"$.Sum()\")"}
+	seconds := []string{"$.order.AsJSON()", "$.AsJSON()", "$.order.weights.AsJSON()", "$.order.rows.AsJSON()", "$.order.weights", "$.order.rows.First()", "$.order"}
+	run := func(q string, data any) string {
+		op, err := mpath.ParseString(q)
+		if err != nil || op == nil {
+			return "PARSE-ERR"
+		}
+		o := evalOp(op, data)
+		if o.Class == "ok" {
+			return o.Logical
+		}
+		return o.Class
+	}
+	for _, q1 := range firsts {
+		for _, q2 := range seconds {
+			var ref string
+			for i, d := range docs {
+				c.Do(Case{Q: q2, D: d, Cls: "round10/one-query-after-another/" + names[i], InDomain: true})
+				alone := run(q2, buildAny(d))
+				data := buildAny(d)
+				run(q1, data)
+				after := run(q2, data)
+				if i == 0 {
+					ref = alone
+				}
+				if after != alone {
+					c.addViolation(Violation{Kind: "history-dependence", Query: q2, QueryHex: hx(q2), Data: d, Expected: trunc(alone, 300), Got: trunc(after, 300), Cls: "round10/one-query-after-another",
+						Why: "in the carrier " + names[i] + " the query answers differently after " + q1 + " was evaluated on the same document", Key: "carrier:round10/one-query-after-another:" + lastFunc(q2)})
+				}
+				if after != ref && i == 1 { // the struct spells its keys as Go field names: compared with itself only
+					c.addViolation(Violation{Kind: "carrier-dependence", Query: q2, QueryHex: hx(q2), Data: d, Expected: trunc(ref, 300), Got: trunc(after, 300), Cls: "round10/one-query-after-another",
+						Why: "after " + q1 + " the same document in the carrier " + names[i] + " gives another answer than in the carrier " + names[0], Key: "carrier:round10/one-query-after-another:" + lastFunc(q2)})
+				}
+			}
 		}
 	}
 }
